@@ -441,10 +441,23 @@ def rule_load_keeps_record(ctx) -> None:
         if isinstance(x, ast.Assign) and isinstance(x.value, ast.Dict) and any(isinstance(t, ast.Subscript) and src(t.value) in edge_maps for t in x.targets):
             wfields |= {const_str(k) for k in x.value.keys if k is not None and const_str(k)}
     ctx.floor("C06.TABLE", "fields of the edge record built by the snapshot normaliser", len(wfields), 4)
-    ld = ctx.func(SNAP + ":load_latest_snapshot")
-    rd = ctx.rd(ld)
-    cfg = ctx.cfg(ld)
-    # loops over <edges>.items() whose body stores into a fresh map: the re-keying loop(s)
+    set_by: Dict[str, Set[str]] = {}
+    n_loops = 0
+    # sibling re-keying loops: the writer's (before the payload is serialised) and the boot loader's
+    hosts = [f for f in ctx.prog.module(SNAP).funcs.values()
+             if any(isinstance(x, ast.For) and isinstance(x.iter, ast.Call) and call_tail(x.iter) == "items" for x in walk_no_defs(f.node))
+             and any(isinstance(c, ast.Call) and call_tail(c) in ("_sanitize_gel_for_write", "_sanitize_gel_for_load") for c in walk_no_defs(f.node)) and f.qual != w.qual]
+    for ld in sorted(hosts, key=lambda f: f.qual):
+        ctx.analysed_funcs.add(ld.qual)
+        n_loops += _rekey_loops(ctx, ld, wfields, set_by)
+    ctx.floor("C06.TABLE", "re-keying loops over the edge map (writer + loader)", n_loops, 2)
+    vals = list(set_by.values())
+    ctx.check(len(vals) >= 2 and all(v == vals[0] for v in vals), "C06.TABLE", f"{SNAP}/rekey-siblings-set-the-same-fields", "clematis/engine/snapshot.py",
+              f"the writer's and the loader's re-keying loops set the same fields ({sorted(vals[0]) if vals else []})",
+              f"the re-keying loops disagree on the fields they set: { {k.split(':')[-1]: sorted(v) for k, v in set_by.items()} }")
+
+
+def _rekey_loops(ctx, ld: Func, wfields: Set[str], set_by: Dict[str, Set[str]]) -> int:
     n_loops = 0
     for lp in [x for x in walk_no_defs(ld.node) if isinstance(x, ast.For)]:
         if not (isinstance(lp.iter, ast.Call) and call_tail(lp.iter) == "items" and isinstance(lp.target, ast.Tuple) and len(lp.target.elts) == 2 and isinstance(lp.target.elts[1], ast.Name)):
@@ -467,6 +480,7 @@ def rule_load_keeps_record(ctx) -> None:
             continue
         n_loops += 1
         over: List[Tuple[str, ast.AST]] = []
+        fields_set: Set[str] = set()
 
         def same_field(f: str, v: ast.AST) -> bool:
             return (isinstance(v, ast.Subscript) and isinstance(v.value, ast.Name) and v.value.id in recs and const_str(v.slice) == f) or \
@@ -478,26 +492,31 @@ def rule_load_keeps_record(ctx) -> None:
                     for t in x.targets:
                         if isinstance(t, ast.Subscript) and isinstance(t.value, ast.Name) and t.value.id in recs:
                             f = const_str(t.slice)
+                            fields_set.add(f or "<computed>")
                             if f is None or (f in wfields and not same_field(f, x.value)):
                                 over.append((f or "<computed>", x))
                 if isinstance(x, ast.Call) and dotted(x.func) == "dict" and x.args and isinstance(x.args[0], ast.Name) and x.args[0].id in recs:
                     for kw in x.keywords:
+                        fields_set.add(kw.arg or "**")
                         if kw.arg is None or (kw.arg in wfields and not same_field(kw.arg, kw.value)):
                             over.append((kw.arg or "**", x))
                 if isinstance(x, ast.Dict) and any(k is None and isinstance(v, ast.Name) and v.id in recs for k, v in zip(x.keys, x.values)):
                     for k, v in zip(x.keys, x.values):
+                        if k is not None:
+                            fields_set.add(const_str(k) or "<computed>")
                         if k is not None and (const_str(k) is None or (const_str(k) in wfields and not same_field(const_str(k), v))):
                             over.append((const_str(k) or "<computed>", x))
                 if isinstance(x, ast.Call) and isinstance(x.func, ast.Attribute) and x.func.attr in ("update", "pop", "clear", "setdefault", "popitem") and isinstance(x.func.value, ast.Name) and x.func.value.id in recs:
                     over.append((f".{x.func.attr}()", x))
+        set_by.setdefault(ld.qual, set()).update(fields_set)
         key = ctx.okey(f"{ld.qual}/rekey-keeps-persisted-fields")
         if over:
             f, node = over[0]
-            ctx.violation("C06.TABLE", key, ld.loc(node), f"the loader's re-keying loop rewrites the persisted edge field `{f}` (`{src(node)[:60]}`): the writer stores {sorted(wfields)} as they are, "
+            ctx.violation("C06.TABLE", key, ld.loc(node), f"the re-keying loop rewrites the persisted edge field `{f}` (`{src(node)[:60]}`): the normaliser's record fields {sorted(wfields)} are persisted as they are, "
                           "so an edge loaded this way is not the edge that was written (e.g. src / dst swapped into canonical order) and re-snapshotting the loaded state gives a different body")
         else:
             ctx.holds("C06.TABLE", key, ld.loc(lp), f"the re-keying loop sets no field of the writer's record table {sorted(wfields)} (only runtime-only fields such as id)")
-    ctx.floor("C06.TABLE", "re-keying loops over the loaded edge map", n_loops, 1)
+    return n_loops
 
 
 def run(ctx) -> None:
